@@ -665,46 +665,136 @@ Proof.
   intro E. match goal with G : ~ In (n_id a) _ |- _ => apply G end. rewrite <- E. apply in_ids. exact H.
 Qed.
 
+Lemma ss_filter : forall (R : node -> node -> Prop) f l, StronglySorted R l -> StronglySorted R (filter f l).
+Proof.
+  intros R f l S. induction S as [|x l S IH F]; cbn [filter]; [constructor|].
+  destruct (f x); [|exact IH]. constructor; [exact IH|].
+  apply Forall_forall. intros y Hy. apply filter_In in Hy. rewrite Forall_forall in F. apply F. tauto.
+Qed.
+
+(* dropping one id from a list without repeated ids removes at most one entry, and none if the id is absent *)
+Lemma filter_one_id_length : forall r l, NoDup (ids l) ->
+  (length l <= S (length (filter (fun x => negb (N.eqb (n_id x) r)) l)))%nat.
+Proof.
+  intros r l. induction l as [|a l IH]; intros ND; cbn [filter length]; [lia|].
+  cbn [ids map] in ND. inversion ND as [|? ? Na ND']; subst.
+  destruct (N.eqb_spec (n_id a) r) as [E|Ne]; cbn [negb length].
+  - assert (filter (fun x => negb (n_id x =? r)) l = l) as ->; [|lia].
+    clear IH ND ND'. induction l as [|b l IHl]; [reflexivity|]. cbn [filter].
+    destruct (N.eqb_spec (n_id b) r) as [Eb|Nb]; cbn [negb].
+    + exfalso. apply Na. cbn [ids map]. left. congruence.
+    + f_equal. apply IHl. intro H. apply Na. cbn [ids map]. right. exact H.
+  - specialize (IH ND'). lia.
+Qed.
+
+Lemma filter_absent_id : forall r l, ~ In r (ids l) -> filter (fun x => negb (n_id x =? r)) l = l.
+Proof.
+  intros r l. induction l as [|a l IH]; intros H; [reflexivity|]. cbn [filter].
+  destruct (N.eqb_spec (n_id a) r) as [E|Ne]; cbn [negb].
+  - exfalso. apply H. cbn [ids map]. left. exact E.
+  - f_equal. apply IH. intro G. apply H. cbn [ids map]. right. exact G.
+Qed.
+
 Section Reply.
   Variable is_self : node -> bool.
   Variables requester key cap : N.
   Variables connected from_table : list node.
   Let known := dedupe_ids (connected ++ from_table).
+  Let others := known_others is_self connected from_table.
+  Let top := local_closest is_self key cap connected from_table.
   Let elig := filter (eligible is_self requester) known.
   Let res := reply_nodes is_self requester key cap connected from_table.
 
-  Lemma reply_eq : res = firstn (N.to_nat cap) (sort_by_dist key elig).
-  Proof. unfold res, reply_nodes. rewrite takeN_firstn. reflexivity. Qed.
+  Lemma top_eq : top = firstn (N.to_nat cap) (sort_by_dist key others).
+  Proof. unfold top, local_closest. rewrite takeN_firstn. reflexivity. Qed.
 
-  Lemma elig_nodup : NoDup (ids elig).
+  Lemma reply_eq : res = filter (fun x => negb (n_id x =? requester)) top.
+  Proof. reflexivity. Qed.
+
+  Lemma others_nodup : NoDup (ids others).
   Proof. apply nodup_ids_filter, dedupe_ids_nodup. Qed.
 
-  Lemma reply_length : N.of_nat (length res) = N.min cap (N.of_nat (length elig)).
-  Proof. rewrite reply_eq, firstn_length, sort_length. lia. Qed.
+  Lemma top_nodup : NoDup (ids top).
+  Proof. rewrite top_eq. apply nodup_ids_firstn, sort_ids_nodup, others_nodup. Qed.
+
+  Lemma top_length : N.of_nat (length top) = N.min cap (N.of_nat (length others)).
+  Proof. rewrite top_eq, firstn_length, sort_length. lia. Qed.
+
+  Lemma reply_length_le : N.of_nat (length res) <= cap.
+  Proof.
+    rewrite reply_eq. pose proof (filter_length_le (fun x => negb (n_id x =? requester)) top) as L.
+    pose proof top_length. lia.
+  Qed.
+
+  (* at most one slot is lost to the requester, and none when it is not among the nearest cap *)
+  Lemma reply_length_ge : N.min cap (N.of_nat (length others)) <= N.of_nat (length res) + 1.
+  Proof.
+    rewrite <- top_length, reply_eq. pose proof (filter_one_id_length requester top top_nodup). lia.
+  Qed.
+
+  Lemma reply_length_exact : ~ In requester (ids top) ->
+    res = top /\ N.of_nat (length res) = N.min cap (N.of_nat (length others)).
+  Proof.
+    intros H. rewrite reply_eq, (filter_absent_id requester top H). split; [reflexivity|apply top_length].
+  Qed.
 
   Lemma reply_sorted : StronglySorted (dlt key) res.
-  Proof. rewrite reply_eq. apply ss_firstn, sort_sorted, elig_nodup. Qed.
+  Proof. rewrite reply_eq. apply ss_filter. rewrite top_eq. apply ss_firstn, sort_sorted, others_nodup. Qed.
 
   Lemma reply_nodup : NoDup (ids res).
-  Proof. rewrite reply_eq. apply nodup_ids_firstn, sort_ids_nodup, elig_nodup. Qed.
+  Proof. rewrite reply_eq. apply nodup_ids_filter, top_nodup. Qed.
 
   Lemma reply_members : forall x, In x res ->
     In x (connected ++ from_table) /\ is_self x = false /\ n_id x <> requester.
   Proof.
-    intros x H. rewrite reply_eq in H. apply firstn_incl in H. apply sort_in in H.
-    unfold elig in H. apply filter_In in H. destruct H as [H E]. apply dedupe_ids_sub in H.
-    unfold eligible in E. apply andb_true_iff in E. rewrite !negb_true_iff, N.eqb_neq in E. tauto.
+    intros x H. rewrite reply_eq in H. apply filter_In in H. destruct H as [H R].
+    rewrite top_eq in H. apply firstn_incl in H. apply sort_in in H.
+    unfold others, known_others in H. apply filter_In in H. destruct H as [H E]. apply dedupe_ids_sub in H.
+    rewrite negb_true_iff in E, R. rewrite N.eqb_neq in R. tauto.
   Qed.
 
   Lemma reply_complete : forall x y, In x res -> In y elig -> ~ In y res -> dlt key x y.
   Proof.
-    intros x y Hx Hy Ny. rewrite reply_eq in *.
-    pose proof (sort_sorted key elig elig_nodup) as S.
-    rewrite <- (firstn_skipn (N.to_nat cap) (sort_by_dist key elig)) in S.
+    intros x y Hx Hy Ny. rewrite reply_eq in Hx, Ny.
+    apply filter_In in Hx. destruct Hx as [Hx _].
+    unfold elig in Hy. apply filter_In in Hy. destruct Hy as [Hy E].
+    unfold eligible in E. apply andb_true_iff in E. destruct E as [E1 E2].
+    assert (In y others) as Ho by (unfold others, known_others; apply filter_In; split; assumption).
+    assert (~ In y top) as Nt by (intro G; apply Ny; apply filter_In; split; assumption).
+    rewrite top_eq in Hx, Nt.
+    pose proof (sort_sorted key others others_nodup) as S.
+    rewrite <- (firstn_skipn (N.to_nat cap) (sort_by_dist key others)) in S.
     apply (ss_app_inv _ _ _ S); [exact Hx|].
-    apply (sort_in key) in Hy. rewrite <- (firstn_skipn (N.to_nat cap)) in Hy. apply in_app_iff in Hy. tauto.
+    apply (sort_in key) in Ho. rewrite <- (firstn_skipn (N.to_nat cap)) in Ho. apply in_app_iff in Ho. tauto.
   Qed.
+
 End Reply.
+
+(* the evaluated check of a wire reply means what it says *)
+Lemma nodes_eqb_eq : forall a b, nodes_eqb a b = true -> a = b.
+Proof.
+  induction a as [|x a IH]; intros [|y b] H; cbn [nodes_eqb] in H; try discriminate; [reflexivity|].
+  apply andb_true_iff in H. destruct H as [H1 H2]. apply node_eqb_eq in H1. f_equal; [exact H1|apply IH; exact H2].
+Qed.
+
+Lemma check_rcase_sound : forall selfks req key cap before after reply,
+  check_rcase (selfks, req, key, cap, before, after, reply) = true ->
+  (forall x, In x reply -> In x after) /\
+  exists k, (k = reply ++ before \/ (k = req :: reply ++ before /\ In req after)) /\
+            reply = reply_nodes (is_self_in selfks) (n_id req) key cap k [].
+Proof.
+  intros selfks req key cap before after reply H. unfold check_rcase in H.
+  apply andb_true_iff in H. destruct H as [Hs H]. split.
+  - intros x Hx. unfold subset_nodes in Hs. rewrite forallb_forall in Hs. specialize (Hs x Hx).
+    apply existsb_exists in Hs. destruct Hs as [y [Hy E]]. apply node_eqb_eq in E. subst. exact Hy.
+  - apply orb_true_iff in H. destruct H as [H|H].
+    + exists (reply ++ before). split; [left; reflexivity|]. apply nodes_eqb_eq. exact H.
+    + apply andb_true_iff in H. destruct H as [Hr H]. exists (req :: reply ++ before). split.
+      * right. split; [reflexivity|]. apply existsb_exists in Hr. destruct Hr as [y [Hy E]].
+        apply node_eqb_eq in E. subst. exact Hy.
+      * apply nodes_eqb_eq. exact H.
+Qed.
+
 
 (* ------------------------------------------------------------------ *)
 (* statements about every table reachable from the empty one            *)
@@ -768,26 +858,32 @@ Qed.
 
 Lemma reply_rule : forall is_self requester key cap connected from_table,
   let known := dedupe_ids (connected ++ from_table) in
+  let others := filter (fun x => negb (is_self x)) known in
+  let top := firstn (N.to_nat cap) (sort_by_dist key others) in
   let elig := filter (eligible is_self requester) known in
   let res := reply_nodes is_self requester key cap connected from_table in
   (* one entry per DHT key, the first (connected, dialable) one *)
   NoDup (ids known) /\
   (forall x, In x (connected ++ from_table) -> exists y, In y known /\ n_id y = n_id x) /\
   (forall x, In x connected -> NoDup (ids connected) -> In x known) /\
-  (* the answer: the nearest [cap] of the eligible entries *)
-  res = firstn (N.to_nat cap) (sort_by_dist key elig) /\
-  N.of_nat (length res) = N.min cap (N.of_nat (length elig)) /\
+  (* the answer: the nearest [cap] of everything known but the node itself, minus the requester *)
+  res = filter (fun x => negb (n_id x =? requester)) top /\
   N.of_nat (length res) <= cap /\
+  N.min cap (N.of_nat (length others)) <= N.of_nat (length res) + 1 /\
+  (~ In requester (ids top) -> res = top /\ N.of_nat (length res) = N.min cap (N.of_nat (length others))) /\
   StronglySorted (dlt key) res /\
   NoDup (ids res) /\
   (forall x, In x res -> In x (connected ++ from_table) /\ is_self x = false /\ n_id x <> requester) /\
   (forall x y, In x res -> In y elig -> ~ In y res -> dlt key x y).
 Proof.
   intros is_self requester key cap connected from_table. cbn zeta.
+  pose proof (top_eq is_self key cap connected from_table) as T. cbn zeta in T. unfold known_others in T.
   split; [apply dedupe_ids_nodup|]. split; [apply dedupe_ids_first|].
   split; [intros x Ix ND; apply dedupe_ids_head; assumption|].
-  split; [apply reply_eq|]. split; [apply reply_length|].
-  split; [pose proof (reply_length is_self requester key cap connected from_table) as L; cbn zeta in L; lia|]. split; [apply reply_sorted|]. split; [apply reply_nodup|].
+  split; [rewrite <- T; apply reply_eq|]. split; [apply reply_length_le|].
+  split; [apply (reply_length_ge is_self requester key cap connected from_table)|].
+  split; [rewrite <- T; apply (reply_length_exact is_self requester key cap connected from_table)|].
+  split; [apply reply_sorted|]. split; [apply reply_nodup|].
   split; [apply reply_members|apply reply_complete].
 Qed.
 
